@@ -8,11 +8,12 @@ import P2P.Drv.Pqr
 import P2P.Drv.PdbRead
 import P2P.Drv.Dx
 import P2P.Drv.Psize
+import P2P.Drv.Cif
 
 open P2P P2P.Drv
 
 def allHandlers : List (String × Handler) :=
-  PqrD.handlers ++ PdbReadD.handlers ++ DxD.handlers ++ PsizeD.handlers
+  PqrD.handlers ++ PdbReadD.handlers ++ DxD.handlers ++ PsizeD.handlers ++ CifD.handlers
 
 def answer (line : Str) : Str :=
   let line := line.filter (fun c => c ≠ '\n' && c ≠ '\r')
